@@ -30,10 +30,22 @@ def jdump_full(m):
     return json.dumps(_num(S.dump(m)), sort_keys=True, default=str)
 
 
+ENC = [None]  # the encoding the files of the current round trip are written and read with (None: the library's default)
+
+
+def _kw():
+    return {"encoding": ENC[0]} if ENC[0] else {}
+
+
 def load(path):
     p = BaseProject()
-    p.read_simple_json(path)
+    p.read_simple_json(path, **_kw())
     return p
+
+
+def _jload(path):
+    with open(path, encoding=ENC[0] or "utf-8") as f:
+        return json.load(f)
 
 
 def check_references(p):
@@ -128,6 +140,7 @@ def stage_ops(spec, opts):
 
 def round_trip(spec, opts, stage_name, op, tmpdir, col, label):
     out = []
+    ENC[0] = spec.get("file_encoding")
     m = runner.prepare(spec, opts)
     setup_subprojects(m, spec)
     try:
@@ -139,7 +152,7 @@ def round_trip(spec, opts, stage_name, op, tmpdir, col, label):
     f2 = os.path.join(tmpdir, "b%d.json" % os.getpid())
     stage_kind = stage_name.split("@")[0]
     try:
-        m.project.write_simple_json(f1)
+        m.project.write_simple_json(f1, **_kw())
     except Exception as e:
         import traceback
 
@@ -159,12 +172,12 @@ def round_trip(spec, opts, stage_name, op, tmpdir, col, label):
         out.append(("C16:read-raised:%s@%s" % (type(e).__name__, where), {"stage": stage_name, "error": repr(e)}))
         return out
     try:
-        p2.write_simple_json(f2)
+        p2.write_simple_json(f2, **_kw())
     except Exception as e:
         out.append(("C16:write-after-read-raised:%s" % type(e).__name__, {"stage": stage_name, "error": repr(e)}))
         return out
-    j1 = _num(json.load(open(f1)))
-    j2 = _num(json.load(open(f2)))
+    j1 = _num(_jload(f1))
+    j2 = _num(_jload(f2))
     col.checks["c16.roundtrip"] += 1
     if j1 != j2:
         d = first_diff(json.dumps(j1, sort_keys=True), json.dumps(j2, sort_keys=True))
@@ -207,8 +220,8 @@ def round_trip(spec, opts, stage_name, op, tmpdir, col, label):
     if stage_kind == "paused" and not bad:
         try:
             p4 = load(f1)
-            p4.write_simple_json(f2)
-            j4 = _num(json.load(open(f2)))
+            p4.write_simple_json(f2, **_kw())
+            j4 = _num(_jload(f2))
             col.checks["c16.second-reader"] += 1
             if j4 != j1:
                 d = first_diff(json.dumps(j1, sort_keys=True), json.dumps(j4, sort_keys=True))
@@ -269,6 +282,16 @@ def models(tier, tmpdir):
             out.append((sp, {"rule": "TSLACK", "max_time": F.seq_bound(sp) + 8}, "one-sided-wiring"))
             sp = dict(sp0, workplaces=[dict(wp, wire_inputs="one-sided-out") for wp in sp0["workplaces"]])
             out.append((sp, {"rule": "TSLACK", "max_time": F.seq_bound(sp) + 8}, "links-declared-on-the-sending-side-only"))
+    # names in other scripts, the file written and read with the encoding the user's other tools expect
+    for enc in (None, "ascii", "cp932", "latin-1", "utf-16"):
+        nm = {"T0": "溶接 A", "T1": "Prüfung №2", "T2": "塗装"}
+        sp = {"tasks": [{"name": nm["T0"], "work": 2.0, "nf": True}, {"name": nm["T1"], "work": 1.0}, {"name": nm["T2"], "work": 1.0}], "links": [[0, 1, "FS"], [1, 2, "FS"]],
+              "components": [{"name": "船体", "tasks": [0, 1, 2]}],
+              "workplaces": [{"name": "工場", "cap": 1.0, "targets": [0], "facilities": [{"name": "Fräse", "skills": {nm["T0"]: 1.0}, "cost": 1.0}]}],
+              "teams": [{"name": "チーム", "targets": [0, 1, 2], "workers": [{"name": "Żaneta", "skills": {v: 1.0 for v in nm.values()}, "fskills": {"Fräse": 1.0}, "cost": 1.0}]}]}
+        if enc:
+            sp["file_encoding"] = enc
+        out.append((sp, {"rule": "TSLACK", "max_time": 12}, "names-in-other-scripts:%s" % (enc or "default")))
     out.append((F.shared_child_spec(), {"rule": "TSLACK", "max_time": 20}, "shared-child"))
     out.append((F.team_hierarchy_spec(), {"rule": "TSLACK", "max_time": 12}, "hierarchy"))
     out.append((F.idle_component_spec(), {"rule": "TSLACK", "max_time": 14}, "idle-component"))
